@@ -202,7 +202,19 @@ pub fn run_history_shared(cd: &CredDef, rng: &mut Rng, id: &str, o: &HistOpts, f
                     0 => json!({"op":"issue","i":i}),
                     1 => json!({"op":"revoke","i":i}),
                     2 => json!({"op":"unrevoke","i":i}),
-                    _ => if rng.chance(1,2) { json!({"op":"update","issued":[i],"revoked":[]}) } else { json!({"op":"update","issued":[],"revoked":[i]}) },
+                    _ => {
+                        // a batch with one index out of range, alone or next to a well-formed
+                        // rest (the whole batch must be refused and nothing applied)
+                        let addable: Vec<u32> = if by_default { revoked_now.clone() } else { (1..=l).filter(|i| !valid.contains(i)).collect() };
+                        let mut iss: BTreeSet<u32> = BTreeSet::new();
+                        let mut rev: BTreeSet<u32> = BTreeSet::new();
+                        if rng.chance(2, 3) {
+                            for _ in 0..1 + rng.below(2) { if !addable.is_empty() { iss.insert(*rng.pick(&addable)); } }
+                            for _ in 0..rng.below(3) { if !valid_now.is_empty() { rev.insert(*rng.pick(&valid_now)); } }
+                        }
+                        if rng.chance(1, 2) { iss.insert(i); } else { rev.insert(i); }
+                        json!({"op":"update","issued": iss.into_iter().collect::<Vec<_>>(), "revoked": rev.into_iter().collect::<Vec<_>>()})
+                    }
                 }
             } else if roll < o.wild_pct + o.illformed_pct {
                 let i = 1 + rng.below(l as u64) as u32;
@@ -484,6 +496,35 @@ pub fn run_history_shared(cd: &CredDef, rng: &mut Rng, id: &str, o: &HistOpts, f
             merge_cases += 1;
         }
     }
+    // ---- merging in a delta that carries no previous accumulator (a registry snapshot, or a
+    //      message with the optional field left out) must be refused: nothing shows it follows
+    {
+        let mut prevless: Vec<RevocationRegistryDelta> = vec![RevocationRegistryDelta::from(&rc.reg)];
+        if n >= 1 {
+            let k = rng.below(n as u64) as usize;
+            let mut v = jv(&deltas[k].1);
+            if let Some(o) = v.as_object_mut() { o.remove("prevAccum"); }
+            if let Ok(d) = from_jv::<RevocationRegistryDelta>(&v) { prevless.push(d); }
+        }
+        let mut targets: Vec<RevocationRegistryDelta> = vec![RevocationRegistryDelta::from(&rc.reg)];
+        if n >= 1 { targets.push(deltas[n - 1].1.clone()); targets.push(deltas[rng.below(n as u64) as usize].1.clone()); }
+        for (ti, d1) in targets.iter().enumerate() {
+            for (pi, d2) in prevless.iter().enumerate() {
+                let mut m = d1.clone();
+                let r = guard(|| m.merge(d2));
+                let implj = json!({"status": r.tag(), "msg": r.msg(), "result": delta_json(&m), "target_before": delta_json(d1), "consecutive": false});
+                if !r.is_ok() && delta_json(&m) != delta_json(d1) {
+                    oracles.push(json!({"name":"refused_merge_leaves_target","ok":false,"detail":format!("refused merge changed its target: {} -> {}", delta_json(d1), delta_json(&m))}));
+                }
+                if r.is_ok() {
+                    oracles.push(json!({"name":"nonconsecutive_refused","ok":false,"detail":format!("merge of a delta without previous accumulator accepted: {} then {}", delta_json(d1), delta_json(d2))}));
+                }
+                extra_cases.push(json!({"id": format!("{}/merge/noprev-{}-{}", id, ti, pi), "op":"merge",
+                    "in": {"d1": delta_json(d1), "d2": delta_json(d2)}, "impl": implj}));
+                merge_cases += 1;
+            }
+        }
+    }
     // chain merge == cumulative
     if n >= 2 && wf_so_far {
         let mut m = deltas[0].1.clone();
@@ -604,6 +645,10 @@ fn gen_reg(thorough: bool, rng: &mut Rng) -> Result<(), String> {
                 (3, false, vec![json!({"op":"issue","i":2}), json!({"op":"issue","i":3}), json!({"op":"revoke","i":2}), json!({"op":"unrevoke","i":2}), json!({"op":"update","issued":[1],"revoked":[3]})]),
                 (1, true, vec![json!({"op":"issue","i":1}), json!({"op":"revoke","i":1}), json!({"op":"unrevoke","i":1})]),
                 (4, true, vec![json!({"op":"issue","i":2}), json!({"op":"update","issued":[],"revoked":[1,2,3]}), json!({"op":"update","issued":[2,3],"revoked":[4]}), json!({"op":"issue","i":4})]),
+                // batches with one index out of range next to a well-formed rest: all or nothing
+                (3, false, vec![json!({"op":"update","issued":[1,2],"revoked":[0]}), json!({"op":"update","issued":[1,2],"revoked":[4]}), json!({"op":"update","issued":[1,2],"revoked":[]})]),
+                (3, true, vec![json!({"op":"revoke","i":1}), json!({"op":"update","issued":[1],"revoked":[4294967295u32]}), json!({"op":"update","issued":[1],"revoked":[2,5]})]),
+                (4, false, vec![json!({"op":"issue","i":2}), json!({"op":"update","issued":[1,5],"revoked":[2]}), json!({"op":"update","issued":[0,1],"revoked":[2]}), json!({"op":"update","issued":[1,3],"revoked":[2]})]),
             ];
             let opts = HistOpts { max_l: 32, max_depth: 40, with_holders: true, illformed_pct: 4, wild_pct: 10 };
             for (k, (l, bd, ops)) in corpus.into_iter().enumerate() {
